@@ -4,7 +4,7 @@
 //verif:native-timeout 120000
 //verif:assume purge drivers end to end over in-memory stores (as C14's end-to-end harness: real PurgeBuildReverseIndex / PurgeDeleteUnused, openKV routed to the in-memory KV model symbolically, real pebble natively); faults: the solver picks one store call (any call on the metadata or blob store, reads and listings included) of the index build or of delete-unused that fails once (transient), or the mutating call at which the index build dies (fail-stop, landed or not) after which the build is resumed with --resume on a fresh local KV store
 //verif:assume world as in C14: two committed bundles sharing a file, the blobs of a deleted bundle, one bundle uploaded after the index build; index chunk size 2 (so several chunks exist); one variant with 12 keys at one key per chunk and a crash after the tenth chunk; listings returning full pages or at most two keys per page; in the crash variants the late bundle's blobs are written before the resume and the bundle is committed after it (an interrupted upload retried as a whole, or one long upload whose metadata lands after the resumed build)
-//verif:cover VerifC13PurgeFaults upload-between-crash-and-resume short-listing-pages resumed-after-ten-chunks fault-in-build fault-in-delete build-crashed-and-resumed reported-failure-retried late-upload-reuses-orphaned-blobs two-repositories extra-context upload-in-flight-across-the-resume
+//verif:cover VerifC13PurgeFaults upload-between-crash-and-resume short-listing-pages resumed-after-ten-chunks fault-in-build fault-in-delete build-crashed-and-resumed reported-failure-retried late-upload-reuses-orphaned-blobs two-repositories extra-context upload-in-flight-across-the-resume blob-store-without-touch
 package core
 
 import (
@@ -58,6 +58,10 @@ func VerifC13PurgeFaults() {
 		// the late upload stores content whose blobs already exist, orphaned by the deleted bundle (older than the index)
 		lateContent = "orphaned-content"
 		vCover("late-upload-reuses-orphaned-blobs")
+		if mode == 1 && vChoose("blobStoreWithoutTouch", 2) == 1 {
+			w.blob.noTouch = true // a backend that cannot refresh modification times (S3): duplicates are written again
+			vCover("blob-store-without-touch")
+		}
 	}
 	vNextSecond()
 	if mode == 0 || mode == 2 {
